@@ -10,12 +10,42 @@ RULE = ('triangle/polyline: search p_bbox (every drawn pixel on a native and on 
         'bounding_box(); transparent draws nothing) and p_tri_styled on styled triangles and polylines with stroke widths 0..=24 (incl. wider than the '
         'shape), 3 alignments, fill/stroke present/absent: ALL vertex triples (up to order) of a 5x5 grid x 12 styles, polylines over a 3x3 grid with '
         '0..=4 vertices x widths 1..=5, random ones up to +-30 and small ones with strokes wider than the shape.')
-PARTIAL = ['C02_tri_polyline_thin_in_bbox_partial (thin polyline against Polyline::bounding_box(); full: against the styled box)',
-           'thick strokes (width >= 1 for triangles, >= 2 for polylines): extents / edges_bounding_box not modelled, no theorem: search only']
+PARTIAL = ['thick strokes (width >= 1 for triangles, >= 2 for polylines): no pixel-level theorem in this part (Properties/C02_join.v has the corner containment); search p_bbox / p_tri_styled / p_thick_bbox']
 TRUSTED = []
 ASSUMPTIONS = []
 
 STYLES = ['S 1 1 1 0', 'S 1 1 1 1', 'S 0 1 1 2', 'S 0 1 2 0', 'S 1 1 2 1', 'S 0 1 3 2', 'S 1 1 3 0', 'S 0 1 4 1', 'S 1 1 5 2', 'S 1 0 3 0', 'S 0 1 9 1', 'S 1 1 24 2']
+
+
+def cases(tier, rng):
+    """ties of the models the C02_tri theorems cite, so that `./check C02` alone corresponds them: Triangle::points()/bounding_box(),
+    the styled fill (width 0), Polyline::points()/bounding_box(), the thin styled polyline, and the styled box of a 1px polyline
+    (Model/Join.v poly_thick_bounding_box, suite join_poly_bbox of the join part)"""
+    for k, t in enumerate(_c19.grid_multisets(5)):
+        yield J('tri_points', *t)
+        yield J('tri_bbox', *t)
+        f, sc, al = _c19.STYLES_W0[k % 12]
+        yield J('tri_styled_w0', *t, f, sc, al)
+    n = 300 if tier == 'quick' else 5000
+    for _ in range(n):
+        t = _c19.rnd_tri(rng)
+        yield J('tri_points', *t)
+        yield J('tri_bbox', *t)
+        yield J('tri_styled_w0', *_c19.rnd_tri(rng), rng.randrange(2), rng.randrange(2), rng.randrange(3))
+    for vs in _c19.poly_lists(_c19.PTS3, 3 if tier == 'quick' else 4):
+        yield J('poly_points', 0, 0, *_c19.flat(vs))
+        yield J('poly_bbox', rng.randrange(-3, 4), rng.randrange(-3, 4), *_c19.flat(vs))
+        yield J('poly_styled_thin', rng.randrange(-3, 4), rng.randrange(-3, 4), 1, 1, len(vs), *_c19.flat(vs))
+        if len(vs) >= 2:
+            yield J('join_poly_bbox', 1, *_c19.flat(vs))
+    for _ in range(n):
+        vs = _c19.rnd_poly(rng)
+        tr = (rng.randrange(-20, 21), rng.randrange(-20, 21))
+        yield J('poly_points', *tr, *_c19.flat(vs))
+        yield J('poly_bbox', *tr, *_c19.flat(vs))
+        yield J('poly_styled_thin', *tr, rng.randrange(2), rng.randrange(2), len(vs), *_c19.flat(vs))
+        if len(vs) >= 2:
+            yield J('join_poly_bbox', 1, *_c19.flat(vs))
 
 
 def search(tier, rng):
